@@ -255,6 +255,8 @@ func init() {
 	// bank metadata validation (plain string code on top of ValidateDenom and TrimSpace)
 	execThrough["(github.com/cosmos/cosmos-sdk/x/bank/types.Metadata).Validate"] = true
 	execThrough["(github.com/cosmos/cosmos-sdk/x/bank/types.DenomUnit).Validate"] = true
+	// the SDK's typed-event conversion (its loop over a map is the subject of a C14 harness; marshalling is stubbed there)
+	execThrough[sdkT+".TypedEventToEvent"] = true
 	// range-end helpers of the store (plain byte-slice code)
 	for _, f := range []string{sdkT + ".PrefixEndBytes", sdkT + ".InclusiveEndBytes", "github.com/cosmos/cosmos-sdk/store/types.PrefixEndBytes", "github.com/cosmos/cosmos-sdk/store/types.InclusiveEndBytes"} {
 		execThrough[f] = true
